@@ -36,7 +36,8 @@ META = {
     "engines": ["E-FS (forksym; ReShim interprets the decoder's own regexes over symbolic bytes)"],
     "stubs": C.STUBS,
     "assumptions": [
-        "well-formed bodies: CRLF line breaks in the framing the harness writes (content bytes are arbitrary)",
+        "well-formed bodies: CRLF line breaks in the framing the harness writes (content bytes are arbitrary); extra recipes with bare-LF "
+        "(content not ending in CR) and bare-CR framing exercise the decoder's documented leniency",
         "field-part content bytes are ASCII (text decoding = identity); file-part bytes are unrestricted 0..255",
         "part names / filenames / extra headers / boundaries / preamble / epilogue come from an enumerated recipe list",
         "chunk boundaries are enumerated (every single cut near the content and delimiters, byte-at-a-time, "
@@ -103,7 +104,7 @@ def build(job):
             parts.append(C.Part("file", var["names"][i % 2], content, var["filename"], var["extra"]))
         else:
             parts.append(C.Part("field", var["names"][i % 2], content))
-    body = C.encode_form(parts, boundary, var["pre"], var["epi"])
+    body = C.encode_form(parts, boundary, var["pre"], var["epi"], lb=job.get("lb", b"\r\n"))
     return parts, body, allvars, boundary
 
 
@@ -161,6 +162,11 @@ def run_job(job) -> report.JobResult:
                 for kind, vs in allvars:
                     for v in vs:
                         eng.solver.add(v >= 0, v <= (127 if kind == "field" else 255))
+                if job.get("lb", b"\r\n") == b"\n":
+                    # bare-LF framing is inherently ambiguous when content ends in CR (CR LF is read as one line break)
+                    for p in parts:
+                        if p.content and isinstance(p.content[-1], SInt):
+                            eng.solver.add(p.content[-1].e != 13)
 
                 def fn():
                     # precondition, evaluated symbolically before the call: content free of '--'+boundary
@@ -242,6 +248,14 @@ def jobs(tier: str):
                     out.append(dict(name=f"{label}/b{bi}/{VARIANTS[vi]['label']}/helpers", tmpl=tmpl, boundary=bi, variant=vi,
                                     entries=["parse_stream", "parse_async_stream", "wsgi_form", "asgi_form"],
                                     cutmode="cut1", empties=False, weight=4 ** nsym * 4))
+    # the decoder's documented leniency: bare LF / bare CR framing (outside the RFC; kept working)
+    for lbname, lb in (("lf", b"\n"), ("cr", b"\r")):
+        for label, tmpl in T:
+            nsym = sum(n for _, n, _, _ in tmpl)
+            if nsym > 2 or any(pre or post for _, _, pre, post in tmpl):
+                continue
+            out.append(dict(name=f"{label}/b0/plain/decoder-{lbname}", tmpl=tmpl, boundary=0, variant=0, entries=["decoder", "parse_stream"],
+                            cutmode="cut1", empties=False, lb=lb, weight=4 ** nsym * 2))
     out.append(dict(name="twin/file1", tmpl=[("file", 1, b"", b"")], boundary=0, variant=0, entries=["decoder", "wsgi_form"],
                     cutmode="whole", twin=True))
     return out
